@@ -275,17 +275,28 @@ Print Assumptions prefer_self_is_source.
 
 (* ---- tie to the source: Table.merge itself as tools/py2v_merge regenerates it from biom/table.py
    on every check (Gen/MergeGen.v over the vocabulary Gen/MergePrelude.v): normalising `other`, the
-   fast-path condition, the pairwise loop through the recursive call.  The generated method takes
-   the target of its recursive call as a parameter; two unfoldings are the method, whatever stands
-   at the third level (merge_recursion_is_source). *)
+   fast-path condition, the pairwise loop through the recursive call, the replacement of None
+   metadata functions, the mode validation, the id orders through the regenerated helpers, the
+   sort by index and the empty-result refusals; the statements after that are pinned by AST hash
+   (merge_build).  The generated method takes the target of its recursive call as a parameter; two
+   unfoldings are the method, whatever stands at the third level (merge_recursion_is_source_partial).
+   partial: the receiver's ids must be distinct (ids of a well-formed table are, C05) - inherited
+   from intersect_order_is_source_partial; the intermediate tables of the pairwise loop are
+   proved to keep the property. *)
 From BiomV Require Import Gen.MergePrelude Gen.MergeGen Proofs.GenBridgeMergeWrapProofs.
-Theorem merge_dispatch_is_source : forall self sm om fs fo,
+Theorem merge_dispatch_is_source_partial : forall self sm om fs fo,
+  NoDup (oids self) -> NoDup (sids self) ->
   (forall others, gen_merge_closed self (AList others) sm om fs fo = merge_dispatch self others sm om fs fo) /\
   (forall other, gen_merge_closed self (ATable other) sm om fs fo = merge_dispatch self [other] sm om fs fo).
-Proof. exact merge_dispatch_bridge. Qed.
-Print Assumptions merge_dispatch_is_source.
+Proof. exact merge_dispatch_bridge_partial. Qed.
+Print Assumptions merge_dispatch_is_source_partial.
 
-Theorem merge_recursion_is_source : forall (rec : merge_rec) self a sm om fs fo,
+Theorem merge_recursion_is_source_partial : forall (rec : merge_rec) self a sm om fs fo,
+  NoDup (oids self) -> NoDup (sids self) ->
   gen_merge (gen_merge rec) self a sm om fs fo = gen_merge_closed self a sm om fs fo.
-Proof. exact merge_recursion_closed. Qed.
-Print Assumptions merge_recursion_is_source.
+Proof. exact merge_recursion_closed_partial. Qed.
+Print Assumptions merge_recursion_is_source_partial.
+
+Example merge_is_source_hypothesis_satisfiable :
+  exists t : table, NoDup (oids t) /\ NoDup (sids t) /\ oids t <> [] /\ sids t <> [].
+Proof. exact merge_bridge_hypothesis_satisfiable. Qed.
